@@ -25,9 +25,9 @@ PROPS["C14"] = {
         "M3 in-process correspondence through the `verif` re-export of TagState (bounded-exhaustive name sets x lines, each case 3x with fresh hash seeds)",
     ],
     "modelled": [STD_TEXT, "std HashMap is modelled as an association list in arbitrary order (theorem inject_order_irrelevant)", "str::lines / replace_line_ending (model replaceLE)"],
-    "level_text": "Lean theorems over the tag-store model: create fails exactly in the documented cases; every reachable store is prefix-free; under that invariant substitution is independent of map iteration order (determinism); stored once / removed on use. The model's inject (first occurrences, sort by position, leftmost-first skip of overlaps, value line-ending-normalised, used keys deleted) is compared with TagState in process on every name set / line up to the bound, 3 repetitions each. Whole-file tag behaviour (capture of next output, unused tag at EOF) is covered by C01's machine.",
+    "level_text": 'Lean theorems over the tag-store model: create fails exactly in the documented cases; every reachable store is prefix-free; under that invariant substitution is independent of map iteration order (determinism); inject_spec: the result is the line with exactly the greedily selected occurrences replaced by their line-ending-normalised values, every selected occurrence is the FIRST occurrence of a stored name, selected occurrences are increasing and non-overlapping, every unselected occurrence starts inside an earlier selected one, exactly the selected names are deleted, values are not scanned again; a waiting tag captures the next directive output (which is then not written); reaching the end of the file with a tag left is an error. The model is compared with TagState in process on every name set / line up to the bound, 3 repetitions each with fresh hash seeds.',
     "design_ref": "5 C14, 4.4",
-    "level_note": "Trusted: Lean kernel + {propext, Quot.sound}; the decomposition form of inject_spec is not yet a theorem - the executable inject definition is the specification of leftmost-first substitution and is tied to the code by M3.",
+    "level_note": 'Trusted: Lean kernel + {propext, Quot.sound}; std HashMap is modelled as an association list in arbitrary order.',
     "technique": "Lean 4 proof (invariant + permutation-invariance) + bounded-exhaustive differential correspondence",
     "assumptions": ["lines given to inject_tags do not end in a newline (asserted by the code; established by BufRead::lines)"],
 }
@@ -53,9 +53,9 @@ PROPS["C12"] = {
     "cli": False,
     "trusted_base": ["direct oracle: byte scan of every generated file of the real run", "M5 correspondence (as C01)"],
     "modelled": WHOLE_FILE_MODELLED,
-    "level_text": "Lean theorems: str::lines pieces are terminator-free when every CR is followed by LF (rustLines_clean); formatted directive output, substituted tag content and temp bodies consist of such pieces joined by the source's line ending only (LEonly); the ending is sniffed from the first line only. Every generated file of every generated project is byte-scanned on the real implementation on each run, and the whole run is compared with the model.",
+    "level_text": "Lean theorems: for every source whose lines are terminator-free and every world in which included files and command output have CR only before LF, in every mode and both passes, the whole output of a successful pass consists of terminator-free pieces joined by the source's line ending (output_one_ending, proved over the streaming machine), and so does every temp file content; stored tag values keep that discipline; the ending is sniffed from the first line only. Every generated file of every generated project is byte-scanned on the real implementation on each run, and the whole run is compared with the model.",
     "design_ref": "5 C12",
-    "level_note": "The composition theorem over the whole machine (output_conf: the concatenation of all chunks is LEonly) is not yet proved; the three producers and the sniffing rule are, and the byte scan + M5 cover the composition on the implementation. Domain: CR occurs only immediately before LF.",
+    "level_note": 'That BufRead::lines delivers terminator-free lines for a CR-only-before-LF source is a hypothesis of output_one_ending (proved for str::lines as lines_clean); the UTF-8 decoding step is modelled. Domain: CR occurs only immediately before LF.',
     "technique": "Lean 4 proof (line-ending conformance of each producer) + byte-scan oracle + differential correspondence",
     "assumptions": ["CR occurs only immediately before LF in sources, included files and command output"],
 }
@@ -77,9 +77,9 @@ PROPS["C16"] = {
     "cli": False,
     "trusted_base": ["direct oracle: output bytes compared with the input text (identity / write-escape round trip)", "M5 correspondence (as C01)"],
     "modelled": WHOLE_FILE_MODELLED,
-    "level_text": "Lean theorems: a source in which no line parses as a directive is reproduced as its lines joined by the source's line ending with the final one set by the option (all line lists, both passes); directive output enters the output as one chunk that is never passed through detection or tag substitution again (by the specification's eval). The write-escape round trip is checked on the implementation against the input text directly on generated texts rich in look-alikes, real directive lines and live tag names.",
+    "level_text": "Lean theorems: a source in which no line parses as a directive is reproduced as its lines joined by the source's line ending with the final one set by the option (all line lists, both passes); directive output enters the output as one chunk that is never passed through detection or tag substitution again; write_escape_roundtrip: for every non-empty text of terminator-free lines (first without leading/trailing blanks, others without trailing blanks) the source `-TXTPP#write L0 / -L1 / ...` yields exactly the lines joined by the line ending, whatever directive lines, look-alikes or tag names the text contains. Also checked on the implementation against the input text directly.",
     "design_ref": "5 C16",
-    "level_note": "write_escape_roundtrip is not yet a Lean theorem (needs rustLines (joinWith \"\\n\" L) = L); it is an implementation oracle here.",
+    "level_note": 'The round trip theorem is stated for the prefix `-`; other prefixes (incl. non-ASCII) are exercised by the implementation oracle.',
     "technique": "Lean 4 proof (pass-through identity by induction over the machine) + round-trip oracle + differential correspondence",
     "assumptions": ["identity: no line of the source parses as a directive; escape: first line without leading blank, no trailing blanks, no CR/LF inside lines"],
 }
@@ -94,7 +94,7 @@ COORD_TB = ["M6 trace correspondence: the real coordinator under the schedule co
 PROPS["C02"] = {
     "jobs": [{"cmd": "c02", "shards": 16}],
     "cli": False, "trusted_base": COORD_TB, "modelled": COORD_MODELLED,
-    "level_text": "Lean theorems over the coordinator + worker model, for every dependency graph, every interleaving of begin/finish/deliver steps, every thread count and every initial content of the outputs: a final pass is in flight only after all its dependencies finished; finished files are never touched again; at a successful exit every output is the complete sequential value, the unique solution of out f = render f out. The real coordinator is driven through ALL delivery orders of every acyclic digraph on <= 3 files (4 in thorough) with stale outputs on disk, and its trace and bytes are compared on every run.",
+    "level_text": 'Lean theorems over the coordinator + worker model, for every dependency graph, every interleaving of begin/finish/deliver steps, every thread count and every initial content of the outputs: a final pass is in flight only after all its dependencies finished; finished files are never touched again; at a successful exit every output is the complete sequential value, the unique solution of out f = render f out; any two successful executions (schedules, thread counts, stale outputs) finish the same files with the same contents (schedule_independent); in a first pass, meeting an include/after of a generated file switches to collect mode and from then on nothing is executed or written (commands after a dependency run only in the second pass). The real coordinator is driven through ALL delivery orders of every acyclic digraph on <= 4 files with stale outputs on disk and alias spellings, and its trace (incl. the done/total counters), bytes and marker order are compared on every run.',
     "design_ref": "5 C02, 4.7",
     "level_note": "Partial: interleavings of individual file-system calls below task granularity are not modelled; the schedule controller serialises deliveries (it explores all delivery orders, not all preemption points).",
     "technique": "Lean 4 proof (inductive invariant + refinement to sequential build) + exhaustive schedule exploration as correspondence",
@@ -134,9 +134,9 @@ PROPS["C06"] = {
     "cli": False,
     "trusted_base": ["M7 correspondence: every run of a generated history (library in process, real sh, real file system with sentinel mtimes) vs the Lean whole-run model over the same pre-state tree: verdict, all bytes on success, executed-command markers, touch set", "direct oracles on full-tree snapshots of the real runs"],
     "modelled": WHOLE_FILE_MODELLED,
-    "level_text": "Lean theorems: the streaming comparison of the verify sink (remaining-length counter, chunk-wise compare, rem = 0 at the end) succeeds iff the existing bytes equal the concatenation of the chunks, over any alphabet; a verify pass reports ok iff the output holds exactly the fresh bytes; opening/finishing never changes the file system; a verify pass preserves whatever the source's own temp directives and commands preserve (no write of its own); untouched paths keep their bytes. On the implementation: every tampering class of every output incl. dependency outputs, option mismatch, verdict compared with a fresh build, outputs' (inode, mtime, bytes) unchanged.",
+    "level_text": "Lean theorems: the streaming comparison of the verify sink succeeds iff the existing bytes equal the concatenation of the chunks (any alphabet); a verify pass reports ok iff the output holds exactly the fresh bytes; opening/finishing never changes the file system; verify performs no file-system operation of its own; project level (abstract in what a pass computes, any graph and schedule): if a verify run succeeds, every file in the dependency closure of the inputs was verified and holds exactly the value a build would write, and conversely up-to-date outputs never produce an error while a reached mismatch fails its pass. On the implementation: every tampering class of every output incl. dependency outputs, option mismatch, verdict compared with a fresh build, outputs' (inode, mtime, bytes) unchanged.",
     "design_ref": '5 C06, 4.5',
-    "level_note": "The project-level iff (dependencies verified before dependers) rests on C02's order theorems + the M7 correspondence; the model's verify sink compares the whole output at the end, the theorem stream_compare_iff shows the streaming form is equivalent.",
+    "level_note": "The project-level theorem is over the abstract worker model (render local in the dependencies); its instantiation by the concrete pass is tied by M7. The model's verify sink compares the whole output at the end; stream_compare_iff shows the streaming form is equivalent.",
     "technique": 'Lean 4 proof (stream-compare iff, sink lemmas, world invariant of a pass) + history-based differential correspondence',
     "assumptions": ['commands are deterministic functions of the files the domain lets them read'],
 }
@@ -146,7 +146,7 @@ PROPS["C07"] = {
     "cli": False,
     "trusted_base": ["M7 correspondence: every run of a generated history (library in process, real sh, real file system with sentinel mtimes) vs the Lean whole-run model over the same pre-state tree: verdict, all bytes on success, executed-command markers, touch set", "direct oracles on full-tree snapshots of the real runs"],
     "modelled": WHOLE_FILE_MODELLED,
-    "level_text": 'Lean theorems: a clean pass never invokes a command (the marker log is unchanged, proved via an invariant that needs no hypothesis on `run`); its line loop cannot fail whatever directive errors the source contains; it creates no file; it removes the output; a temp target with a txtpp name is refused; untouched paths keep their bytes. On the implementation: build->clean restores the exact tree snapshot, clean alone, clean twice, partially removed generated files, erroneous sources, write-escaped temp directives naming existing files.',
+    "level_text": "Lean theorems: a clean pass - and a complete clean run over any inputs - never invokes a command (proved via an invariant that needs no hypothesis on `run`); its line loop cannot fail whatever directive errors the source contains; it creates no file; it removes the output; whenever build's grouping of the lines into directive blocks succeeds, clean sees exactly the same blocks (escaped directive text is never a directive for clean), build writes and clean removes the same temp target, every other block is a no-op for clean; a temp target with a txtpp name is refused; untouched paths keep their bytes. On the implementation: build->clean restores the exact tree snapshot, clean alone, clean twice, partially removed generated files, erroneous sources, write-escaped temp directives naming existing files.",
     "design_ref": '5 C07',
     "level_note": "build_then_clean_restores is checked on the implementation (snapshot equality), not yet a Lean theorem. Known finding F5 (clean does not follow dependencies) is recognised by signature: every leftover path is generated by a dependency outside clean's resolved inputs.",
     "technique": 'Lean 4 proof (world invariant of a clean pass, totality of the clean machine) + snapshot oracle + differential correspondence',
@@ -158,9 +158,9 @@ PROPS["C08"] = {
     "cli": True,
     "trusted_base": ["M7 correspondence: every run of a generated history (library in process, real sh, real file system with sentinel mtimes) vs the Lean whole-run model over the same pre-state tree: verdict, all bytes on success, executed-command markers, touch set", "direct oracles on full-tree snapshots of the real runs"],
     "modelled": WHOLE_FILE_MODELLED,
-    "level_text": 'Lean theorems: opening an output in build mode forgets whatever the path held and two pre-states differing only there agree afterwards; a successful pass ends with exactly the fresh bytes; after a successful temp write the target holds exactly the new content whatever it held before, and an up-to-date temp file is left alone. On the implementation: every generated path pre-set independently to absent / stale / empty / truncated / cut inside a multi-byte character / random bytes / right+tail, build and needed-build, build twice, SIGKILLed CLI build followed by a rebuild; full-tree equality with the reference build.',
+    "level_text": 'Lean theorems: project level, for every dependency graph and whatever a pass computes: two successful runs over the same sources and inputs, started from different contents of the generated files and under different schedules, finish exactly the same set of files (the dependency closure of the inputs) and leave every output with the same value (builds_are_a_function_of_sources). Pass level: opening an output in build mode forgets whatever the path held; a successful pass ends with exactly the fresh bytes; after a successful temp write the target holds exactly the new content whatever it held before, and an up-to-date temp file is left alone. On the implementation: every generated path pre-set independently to absent / stale / empty / truncated / cut inside a multi-byte character / random bytes / right+tail, build and needed-build, build twice, SIGKILLed CLI build followed by a rebuild; full-tree equality with the reference build.',
     "design_ref": '5 C08',
-    "level_note": "Project-level hermeticity composes these pass-level theorems with C02's order theorem (dependency outputs are rebuilt before they are read); that composition is checked by M7, not yet proved. Crash timing is sampled (random SIGKILL delays), covered in the model by the over-approximation 'any bytes at generated paths'.",
+    "level_note": "The project-level theorem is over the abstract worker model with RenderLocal (a pass depends only on the outputs of its declared dependencies); that the concrete pass has this shape is tied by the M7 pre-state enumeration, not proved. Crash timing is sampled (random SIGKILL delays), covered in the model by 'any bytes at generated paths'.",
     "technique": 'Lean 4 proof (sink and temp-rule lemmas) + pre-state enumeration + differential correspondence',
     "assumptions": ['generated paths hold regular files or nothing', 'commands are deterministic'],
 }
@@ -170,7 +170,7 @@ PROPS["C09"] = {
     "cli": True,
     "trusted_base": ["M7 correspondence: every run of a generated history (library in process, real sh, real file system with sentinel mtimes) vs the Lean whole-run model over the same pre-state tree: verdict, all bytes on success, executed-command markers, touch set", "direct oracles on full-tree snapshots of the real runs"],
     "modelled": WHOLE_FILE_MODELLED,
-    "level_text": "Lean theorems: in needed mode an output whose bytes are already correct is returned untouched (same file system value, same touch set), a stale or missing one is written, and verdict and bytes at every path equal those of a normal build's done; opening touches nothing; no mode rewrites a temp file whose content is already correct while stale ones end correct. On the implementation: per generated file up to date / stale (longer, shorter, same length, non-UTF-8, other) / missing, source edits that shorten the output; bytes equal a normal build in a scratch copy, (inode, mtime) preserved for correct files.",
+    "level_text": "Lean theorems: in needed mode an output whose bytes are already correct is returned untouched (same file system value, same touch set), a stale or missing one is written, and verdict and bytes at every path equal those of a normal build's done; opening touches nothing; no mode rewrites a temp file whose content is already correct while stale ones end correct; project level: a successful needed run and a successful normal run finish the same files with the same contents (the mode does not enter what a pass computes). On the implementation: per generated file up to date / stale (longer, shorter, same length, non-UTF-8, other) / missing; bytes equal a normal build in a scratch copy, (inode, mtime) preserved for correct files; the CLI flag -N is mapped to this mode (binary vs library on identical trees).",
     "design_ref": '5 C09',
     "level_note": 'The CLI mapping -N -> InMemoryBuild (and -n, verify, clean, -r, -j) is checked on the binary by the CLI-flags job: same tree through the library with the Config and through the binary with the flags.',
     "technique": 'Lean 4 proof (needed sink = build sink on bytes, no-touch lemmas) + history-based differential correspondence',
@@ -182,7 +182,7 @@ PROPS["C10"] = {
     "cli": False,
     "trusted_base": ["M7 correspondence: every run of a generated history (library in process, real sh, real file system with sentinel mtimes) vs the Lean whole-run model over the same pre-state tree: verdict, all bytes on success, executed-command markers, touch set", "direct oracles on full-tree snapshots of the real runs"],
     "modelled": WHOLE_FILE_MODELLED,
-    "level_text": "Lean theorem (frame condition of the model): after any pass in any mode, whatever the outcome, every path outside the touch set has the bytes it had before and the touch set only grows; it is extended only by writes/removals of the output path and of resolved temp targets; vocabulary commands change no file; verify's open/finish and clean's operations create nothing. The touch set is compared with real inode/mtime changes by M7, and a full-tree snapshot oracle with decoys at near-miss names checks that only outputs and temp targets change.",
+    "level_text": "Lean theorems (frame condition of the model): after any pass in any mode - and after a complete run (input resolution, scanning, every pass the coordinator schedules) - whatever the outcome, every path outside the touch set has the bytes it had before and the touch set only grows; it is extended only by writes/removals of the output path and of resolved temp targets; vocabulary commands change no file; verify's open/finish and clean's operations create nothing. The touch set is compared with real inode/mtime changes by M7, and a full-tree snapshot oracle with decoys at near-miss names checks that only outputs and temp targets change.",
     "design_ref": '5 C10',
     "level_note": "The statement 'touched is contained in outputs + temp targets of the processed sources' is by construction of the model's operations and checked against the implementation by the snapshot oracle; it is not stated as a separate Lean theorem over source text.",
     "technique": 'Lean 4 proof (touch-set soundness invariant over every pass) + full-tree snapshot oracle + differential correspondence',
@@ -194,7 +194,7 @@ PROPS["C11"] = {
     "cli": False,
     "trusted_base": ["M8 correspondence: library runs on generated trees and input lists vs the Lean whole-run model (resolveInputs, scanDir, naming)", "independent restatement of the processed-set rule in the harness (oracle)"],
     "modelled": WHOLE_FILE_MODELLED + ["std::path::{extension, file_stem, set_extension} (model PathName), canonicalize/exists/is_dir (OS-style walk over the model tree, no symbolic links)"],
-    "level_text": "Lean theorems for ALL names: foo.txtpp -> foo, foo.ext.txtpp -> foo.ext, foo.txtpp.ext is a txtpp source and -> foo.ext (also for dotted foo: finding F6 repaired), whichever source get_txtpp_file finds for an output name has exactly that output (round trip, names without trailing dot), a source name is never resolved as an output name, look-alikes are not txtpp files. The processed set (named files by either name, files directly in named directories, recursive only on request, plus transitive dependencies when building/verifying, once each) is compared with the model and with an independent restatement on generated trees x input lists incl. aliases, absolute paths, duplicates, missing targets.",
+    "level_text": 'Lean theorems for ALL names: foo.txtpp -> foo, foo.ext.txtpp -> foo.ext, foo.txtpp.ext is a txtpp source and -> foo.ext (also for dotted foo: finding F6 repaired), whichever source get_txtpp_file finds for an output name has exactly that output (round trip), a source name is never resolved as an output name, look-alikes are not txtpp files; coordinator level: every file ever processed is reachable from an input along dependency edges, and at a successful exit the processed set is exactly the dependency closure of the inputs, each finished once. The processed set (named files by either name, files directly in named directories, recursive only on request, plus transitive dependencies when building/verifying) is compared with the model and with an independent restatement on generated trees x input lists incl. aliases, absolute paths, duplicates, missing targets.',
     "design_ref": "5 C11, 4.6",
     "level_note": "resolve_inputs_spec / processed_set are not Lean theorems; the executable model functions resolveInputs/scanDir/runProject are tied to the code by M8 and the oracle. Symbolic links to files are outside the domain.",
     "technique": "Lean 4 proof (file-name algebra for all names) + differential correspondence + independent oracle",
@@ -217,9 +217,9 @@ PROPS["C18"] = {
     "inventory": True,
     "trusted_base": ["M10: function-level fuzz under catch_unwind and whole-run fuzz under a watchdog (in process, all threads share one panic hook)", "panic-site inventory (tools/panic_sites.py): counts of slice/index/unwrap/expect/assert/unreachable/panic/`- 1` expressions per anchored file against the audited counts"],
     "modelled": ["byte-offset slicing is modelled by byteSplit (defined exactly on char boundaries <= len)", "panics inside std / dependencies and resource exhaustion are outside the model"],
-    "level_text": "Lean theorems, one per panic-capable site of the anchored files: every slice of detect_from and add_line is taken at the byte length of a known prefix (always a char boundary), Display's args[0] exists for every directive detect_from/add_line can produce, lines from str::lines never end in a newline (the assert in inject_tags), the unwrap in notify_finish cannot fail in any reachable coordinator state, and the coordinator loop ends after at most 2|U| deliveries with exit test = nothing in flight (no hang, given no worker panics). The sites are tied to the code by the inventory; fuzzing searches for a failing input.",
+    "level_text": "Lean theorems, one per panic-capable site of the anchored files: every slice of detect_from and add_line is taken at the byte length of a known prefix (always a char boundary), the inject_tags slices are never inverted, stay within the line and sit on boundaries, Display's args[0] exists for every directive detect_from/add_line can produce, lines from str::lines never end in a newline (the assert in inject_tags), the unwrap in notify_finish cannot fail in any reachable coordinator state, and the coordinator loop ends after at most 2|U| deliveries with exit test = nothing in flight, also with directory scans and symbolic-link loops (no hang, given no worker panics). The sites are tied to the code by the inventory; fuzzing searches for a failing input.",
     "design_ref": "5 C18, 4.8",
-    "level_note": "Partial: the inject_tags slice sites (tag_state.rs:84,92) are covered by the M3 correspondence and the fuzz, not yet by a site theorem; panics inside std/dependencies, allocation failure and stack exhaustion are outside the model. F2 (-j 0) and F4 (symlink loop) were repaired.",
+    "level_note": 'Partial: panics inside std/dependencies, allocation failure and stack exhaustion are outside the model. F2 (-j 0) and F4 (symlink loop) were repaired.',
     "technique": "Lean 4 proof (per-site no-panic theorems, termination bound) + panic-site inventory + fuzzing as failing-input search",
     "assumptions": ["commands terminate"],
 }
